@@ -809,8 +809,9 @@ func (in *Interp) global(g *ssa.Global) *Cell {
 // ---- frames ---------------------------------------------------------------
 
 type frame struct {
-	fn  *ssa.Function
-	env map[ssa.Value]Value
+	fn     *ssa.Function
+	env    map[ssa.Value]Value
+	defers []func()
 }
 
 func (in *Interp) constValue(c *ssa.Const) Value {
@@ -1165,7 +1166,55 @@ func (in *Interp) exec(fr *frame, ins ssa.Instruction) {
 		fr.env[x] = in.sliceOp(fr, x)
 	case *ssa.TypeAssert:
 		fr.env[x] = in.typeAssert(in.get(fr, x.X), x.AssertedType, x.CommaOk, x.Type())
+	case *ssa.Defer:
+		// operands are evaluated now, the call runs at RunDefers (LIFO). A panic
+		// ends the path in this engine, so deferred calls never see one and
+		// recover() always returns nil.
+		c := &x.Call
+		if c.IsInvoke() {
+			iv := in.force(in.get(fr, c.Value))
+			args := make([]Value, 0, len(c.Args))
+			for _, a := range c.Args {
+				args = append(args, in.get(fr, a))
+			}
+			fr.defers = append(fr.defers, func() {
+				if iv.T == nil {
+					in.goPanic("nil interface method call " + c.Method.Name())
+				}
+				in.invoke(iv, c.Method, args)
+			})
+			break
+		}
+		args := make([]Value, 0, len(c.Args))
+		for _, a := range c.Args {
+			args = append(args, in.get(fr, a))
+		}
+		switch f := c.Value.(type) {
+		case *ssa.Builtin:
+			name := f.Name()
+			fr.defers = append(fr.defers, func() {
+				if name == "recover" {
+					return
+				}
+				in.builtin(name, args, c, nil)
+			})
+		case *ssa.Function:
+			fr.defers = append(fr.defers, func() { in.CallFunction(f, args, nil) })
+		default:
+			fv, _ := in.get(fr, c.Value).(*FuncV)
+			fr.defers = append(fr.defers, func() {
+				if fv == nil {
+					in.goPanic("call of nil function")
+				}
+				in.callFuncV(fv, args)
+			})
+		}
 	case *ssa.RunDefers:
+		for len(fr.defers) > 0 {
+			d := fr.defers[len(fr.defers)-1]
+			fr.defers = fr.defers[:len(fr.defers)-1]
+			d()
+		}
 	default:
 		in.unsupported(fmt.Sprintf("instruction %T", ins))
 	}
@@ -1271,6 +1320,8 @@ func (in *Interp) invoke(iv IfaceV, m *types.Func, args []Value) Value {
 
 func (in *Interp) builtin(name string, args []Value, c *ssa.CallCommon, site ssa.Value) Value {
 	switch name {
+	case "recover":
+		return NilIface // a panic ends the path: there is never one to recover
 	case "len":
 		switch v := args[0].(type) {
 		case *StrV:
